@@ -343,9 +343,9 @@ class Run:
                 self.known_hit.setdefault(hit["key"], [hit, 0])[1] += 1
                 continue
             nviol += 1
-            per_kind[m["kind"]] = per_kind.get(m["kind"], 0) + 1
-            if key in seen_sig or len(seen_sig) >= 25 or per_kind[m["kind"]] > 3:
+            if key in seen_sig or len(seen_sig) >= 25 or per_kind.get(m["kind"], 0) >= 3:
                 continue
+            per_kind[m["kind"]] = per_kind.get(m["kind"], 0) + 1
             seen_sig.add(key)
             h = hashlib.sha1(key.encode()).hexdigest()[:10]
             rp = os.path.join(REPLAYS, "%s-%s.json" % (self.prop, h))
